@@ -939,10 +939,11 @@ class DiffAdditiveMixin(DiffKernelMixin):
                 en[-1] += (-1) ** k * en[n - k] * sk[k]
             en[-1] /= n + 1
         res = 0
+        offset = 0 if self.hyperparameter_length_scale.fixed else self.num_scale
         for n in range(self.order + 1):
             res += self.scale[n] * en[n]
             if eval_gradient and not self.hyperparameter_scale.fixed:
-                derivs[:, :, self.num_scale + n] = self.scale[n] * en[n]
+                derivs[:, :, offset + n] = self.scale[n] * en[n]
         kernel = res
         if get_sub_kernels:
             return kernel, en
